@@ -110,6 +110,7 @@ bool SmodelsInput::doParse() {
 void SmodelsInput::matchBody(RuleBuilder& rule) {
 	uint32_t len = matchPos();
 	uint32_t neg = matchPos();
+	require(neg <= len, "more negative literals than literals");
 	for (rule.startBody(); len--;) {
 		Lit_t p = lit(matchAtom());
 		if (neg) { p *= -1; --neg; }
@@ -123,6 +124,7 @@ void SmodelsInput::matchSum(RuleBuilder& rule, bool weights) {
 	uint32_t neg = matchPos();
 	if (!weights) { std::swap(len, bnd); std::swap(bnd, neg); }
 	require(bnd <= static_cast<uint32_t>(INT_MAX), "bound out of range");
+	require(neg <= len, "more negative literals than literals");
 	rule.startSum(static_cast<Weight_t>(bnd));
 	for (uint32_t i = 0; i != len; ++i) {
 		Lit_t p = lit(matchAtom());
